@@ -42,7 +42,7 @@ type c11Plan struct {
 }
 
 var c11Kinds = []string{
-	"other-polynomial", "wrong-recipient-key", "truncated", "bitflip", "random-bytes", "empty-json", "null-deal", "deal-without-body", "wrong-index",
+	"other-polynomial", "wrong-recipient-key", "truncated", "bitflip", "random-bytes", "empty-json", "null-deal", "deal-without-body", "wrong-index", "copied-deal",
 	"commits-shorter", "commits-longer", "commits-swapped", "commits-garbage", "response-complaint", "response-garbage", "response-surplus-complaint",
 }
 
@@ -64,7 +64,13 @@ type c11Obs struct {
 	Refed        int  // refused operations fed again
 	TargetedSent bool
 	Relented     string // non-empty: a machine that had refused an operation accepted it when it was fed again
+	// VictimDealAnswer: the event with which the victim's machine answered the operation in which it read the dealer's
+	// deal (set for deviations of the private deal only)
+	VictimDealAnswer string
+	Deferred         int
 }
+
+var errDeferDeal = fmt.Errorf("no deal of another participant for the victim on the board yet")
 
 func c11Execute(p c11Plan, root string) (obs c11Obs) {
 	w, err := world.New(world.Config{N: p.N, Seed: []byte(fmt.Sprintf("c11|%d|%d", p.N, p.T)), Root: root})
@@ -152,6 +158,22 @@ func c11Execute(p c11Plan, root string) (obs c11Obs) {
 					req.Deal = encTo([]byte(`null`))
 				case "deal-without-body":
 					req.Deal = encTo([]byte(fmt.Sprintf(`{"Index":%d,"Deal":null,"Signature":"AAAA"}`, D)))
+				case "copied-deal":
+					// the dealer forwards, as its own, the ciphertext another participant addressed to the victim (it is on the board)
+					found := false
+					for _, bm := range w.Board.All() {
+						if bm.DkgRoundID == round && bm.Event == "event_dkg_deal_confirm_received" && bm.RecipientAddr == w.Names[V] && bm.SenderAddr != w.Names[D] && bm.SenderAddr != w.Names[V] {
+							var r2 requests.DKGProposalDealConfirmationRequest
+							if json.Unmarshal(bm.Data, &r2) == nil && len(r2.Deal) > 0 {
+								req.Deal = r2.Deal
+								found = true
+								break
+							}
+						}
+					}
+					if !found {
+						return errDeferDeal
+					}
 				case "wrong-index":
 					req.Deal = encTo([]byte(fmt.Sprintf(`{"Index":%d,"Deal":{"DHKey":"AA==","Signature":"AA==","Nonce":"AA==","Cipher":"AA=="},"Signature":"AAAA"}`, p.A%(p.N+3))))
 				}
@@ -280,8 +302,14 @@ func c11Execute(p c11Plan, root string) (obs c11Obs) {
 				}
 			}
 		}
+		if i == V && obs.Applied && string(op.Type) == "state_dkg_responses_await_confirmations" && obs.VictimDealAnswer == "" {
+			obs.VictimDealAnswer = string(res.Event)
+		}
 		if i == D {
 			if err := mutate(op, &res); err != nil {
+				if err == errDeferDeal {
+					return err
+				}
 				return fmt.Errorf("harness mutation: %w", err)
 			}
 			resFile, _ = json.Marshal(res)
@@ -306,6 +334,12 @@ func c11Execute(p c11Plan, root string) (obs c11Obs) {
 			ops, _ := w.Nodes[i].Operations()
 			for _, op := range ops {
 				if err := answer(i, op); err != nil {
+					if err == errDeferDeal && obs.Deferred < 20 {
+						// nobody else's deal for the victim is on the board yet: the dealer's operator waits (its machine has
+						// handled the operation; feeding it again later is what an operator may do anyway)
+						obs.Deferred++
+						continue
+					}
 					if obs.Panic != "" {
 						return
 					}
@@ -328,6 +362,10 @@ func c11Execute(p c11Plan, root string) (obs c11Obs) {
 }
 
 func c11Run(t *testing.T, st *vstat.Stats, p c11Plan) *viol {
+	if p.Kind == "copied-deal" && p.N == 2 {
+		st.Class("discarded:copied-deal-needs-a-third-participant")
+		return nil
+	}
 	if p.Kind == "response-surplus-complaint" && p.N == 2 {
 		// with two participants a peer's message store holds exactly one response ((n-1)^2 = n-1 = 1): a surplus response
 		// never reaches the DKG library, with or without a defect, and every private deal was consistent - the statement
@@ -379,6 +417,12 @@ func c11Run(t *testing.T, st *vstat.Stats, p c11Plan) *viol {
 	if ready {
 		return violf("ready-despite-deviation:"+p.Kind, "%s: the round became signing-ready (states %v)", desc, obs.States)
 	}
+	dealKind := !strings.HasPrefix(p.Kind, "commits-") && !strings.HasPrefix(p.Kind, "response-")
+	if dealKind && obs.VictimDealAnswer != "" && !strings.HasSuffix(obs.VictimDealAnswer, "_error") {
+		// "the addressee refuses it and reports an error": the refusal is the addressee's answer to the very operation in
+		// which its machine read the deal - not an error that everybody runs into one step later
+		return violf("deal-not-refused-by-addressee:"+p.Kind, "%s: the victim's machine answered the operation that carried the deviating deal with %s (errors reported later: %v)", desc, obs.VictimDealAnswer, obs.VictimEv)
+	}
 	if len(obs.VictimEv) == 0 {
 		return violf("no-error-reported:"+p.Kind, "%s: no machine reported an error (states %v)", desc, obs.States)
 	}
@@ -410,7 +454,7 @@ func c11Run(t *testing.T, st *vstat.Stats, p c11Plan) *viol {
 func TestC11(t *testing.T) {
 	st := vstat.New("C11")
 	defer finish(t, st)
-	rapidProp(t, st, "deviations", perShard(pick(192, 4000)), 1, c11Gen, func(p c11Plan) *viol { return c11Run(t, st, p) })
+	rapidProp(t, st, "deviations", perShard(pick(384, 6000)), 1, c11Gen, func(p c11Plan) *viol { return c11Run(t, st, p) })
 }
 
 var _ = world.Topic
